@@ -46,6 +46,9 @@ enum Mutn {
     AddParent(String),
     SetPet(String),
     Move(String, String),
+    /// mutations that change nothing when the reference is already empty: they must not write the row
+    ClearPet,
+    ClearParents,
 }
 impl Mutn {
     fn kind(&self) -> &'static str {
@@ -55,6 +58,8 @@ impl Mutn {
             Mutn::AddParent(_) => "add-reference",
             Mutn::SetPet(_) => "replace-entity-reference",
             Mutn::Move(_, _) => "move-room",
+            Mutn::ClearPet => "clear-entity-reference",
+            Mutn::ClearParents => "clear-references",
         }
     }
     fn apply(&self, s: &mut RowState) {
@@ -69,6 +74,8 @@ impl Mutn {
                 s.room = r.clone();
                 s.nick = Some(v.clone());
             }
+            Mutn::ClearPet => s.pet = None,
+            Mutn::ClearParents => s.parents.clear(),
         }
     }
     fn request(&self, id: &str) -> (String, Parameters) {
@@ -96,6 +103,8 @@ impl Mutn {
                 p.add("v", v.clone()).unwrap();
                 "mutate { Person{ id:$id room_id:$r nick:$v } }"
             }
+            Mutn::ClearPet => "mutate { Person{ id:$id pet:null } }",
+            Mutn::ClearParents => "mutate { Person{ id:$id parents:null } }",
         };
         (text.to_string(), p)
     }
@@ -205,6 +214,8 @@ fn run_case<'a>(ctx: &'a Ctx, case: u64, acc: &'a mut Acc) -> CaseFut<'a> {
                 Mutn::AddParent(pa.clone()),
                 Mutn::SetPet(q.clone()),
                 Mutn::Move(r2.id64(), format!("{}-k2", base)),
+                Mutn::ClearPet,
+                Mutn::ClearParents,
             ];
             pool.shuffle(&mut rng);
             let k = rng.gen_range(2..=3);
@@ -331,10 +342,31 @@ fn run_case<'a>(ctx: &'a Ctx, case: u64, acc: &'a mut Acc) -> CaseFut<'a> {
                     }
                     found
                 };
+                // how many mutations of the group change the row at all (in some serial order)? A lost update between two
+                // writers is one mechanism; a loss caused by a mutation that changes nothing is another
+                let mut writers = 0;
+                for (i, m) in acked_muts.iter().enumerate() {
+                    let mut effective = false;
+                    for perm in permutations(acked_muts.len()) {
+                        let mut s = initial.clone();
+                        for j in perm {
+                            let before = s.clone();
+                            acked_muts[j].apply(&mut s);
+                            if j == i && s != before {
+                                effective = true;
+                            }
+                        }
+                    }
+                    let _ = m;
+                    if effective {
+                        writers += 1;
+                    }
+                }
+                let mech = if writers >= 2 { "several-mutations-of-the-group-change-the-row" } else { "only-one-mutation-of-the-group-changes-the-row" };
                 let sig = if sequential {
                     "C16/sequential-control/acknowledged-change-lost".to_string()
                 } else if explained_by_dropping {
-                    format!("C16/acknowledged-change-lost/{}", lost.first().unwrap_or(&"other"))
+                    format!("C16/acknowledged-change-lost/{}/{}", lost.first().unwrap_or(&"other"), mech)
                 } else {
                     "C16/mixed-state-not-explained-by-any-subset".to_string()
                 };
